@@ -93,11 +93,11 @@ func HarnessResourcesPorts() {
 // mesos-go's 3-decimal fixed-point round trip is the identity: that is what c05ScalarAdd stands for).
 //verif:entry HarnessResourcesScalars unwind=10 conform=12 reach=accepted,refused replace=(*github.com/mesos/mesos-go/api/v1/lib.Value_Scalar).Add=>c05ScalarAdd solverms=60000
 func HarnessResourcesScalars() {
-	cpu, mem := vrt.Float64("offer.cpu"), float64(vrt.IntRange("offer.mem", 0, 1048576))
-	vrt.Assume(cpu >= 0 && cpu <= 1024)
+	cpu, mem := float64(vrt.IntRange("offer.cpu", 0, 1024)), float64(vrt.IntRange("offer.mem", 0, 1048576))
 	res := c05Resources(cpu, mem, []mesos.Value_Range{{Begin: 9000, End: 9100}})
 	w := &Wants{Cpu: vrt.Float64("want.cpu"), Memory: vrt.Float64("want.mem")}
 	vrt.Assume(w.Cpu >= 0 && w.Memory >= 0)
+	vrt.Assume(w.Cpu <= 1e6 && w.Memory <= 1e9) // (sane template values: a float-to-integer conversion beyond the integer range is implementation-defined)
 	if !res.Satisfy(w) {
 		vrt.Reach("refused")
 		return
